@@ -46,6 +46,9 @@ func (ex *Exec) step(f *frame, st *State, ins ssa.Instruction) {
 			f.locs[x] = &Loc{kind: "arr", typ: elem, ref: r, elemT: at.Elem()}
 		} else {
 			ex.storeLoc(st, l, sc.zero(elem))
+			if !escapes(x) && len(ex.private) < 24 {
+				ex.private = append(ex.private, r)
+			}
 		}
 	case *ssa.BinOp:
 		f.def(x, ex.binop(f, st, x))
@@ -777,4 +780,67 @@ func (ex *Exec) jsonShapedFact(v Term, t types.Type) Term {
 
 func (ex *Exec) jsonShaped(st *State, v Term, t types.Type) {
 	ex.assume(st, ex.jsonShapedFact(v, t))
+}
+
+// escapes: does the address of a local cell leave this function (argument of a rulio call, stored as a value,
+// captured by a closure, sent, returned)? Passing it to an external (dependency) function is not an escape:
+// such functions may write through it during the call (handled at the call) but are assumed not to retain it.
+func escapes(a *ssa.Alloc) bool {
+	var visit func(v ssa.Value, depth int) bool
+	visit = func(v ssa.Value, depth int) bool {
+		if depth > 4 {
+			return true
+		}
+		refs := v.Referrers()
+		if refs == nil {
+			return true
+		}
+		for _, ins := range *refs {
+			switch u := ins.(type) {
+			case *ssa.DebugRef:
+			case *ssa.UnOp:
+				if u.Op != token.MUL {
+					return true
+				}
+			case *ssa.Store:
+				if u.Val == v {
+					return true
+				}
+			case *ssa.FieldAddr:
+				if visit(u, depth+1) {
+					return true
+				}
+			case *ssa.IndexAddr:
+				if visit(u, depth+1) {
+					return true
+				}
+			case *ssa.MakeInterface:
+				if visit(u, depth+1) {
+					return true
+				}
+			case *ssa.Call:
+				callee := u.Call.StaticCallee()
+				if callee == nil || isRulio(callee) || callee.Blocks != nil && isRulio(callee) {
+					return true
+				}
+				if u.Call.Value == v {
+					return true
+				}
+			default:
+				return true
+			}
+		}
+		return false
+	}
+	return visit(a, 0)
+}
+
+// inLoop: allocation sites inside loops produce many cells; only straight-line ones are tracked as private.
+func inLoop(f *frame, a *ssa.Alloc) bool {
+	for _, li := range f.loopInfo {
+		if li.body[a.Block()] {
+			return true
+		}
+	}
+	return false
 }
